@@ -435,14 +435,8 @@ impl<'a> JSONValidator<'a> {
         Err(e) => {
           if is_sloppy {
             // RFC 9741: Sloppy mode - try to decode without checking trailing bits
-            let cleaned = s.trim_end_matches('=');
-            let sloppy_result = if is_classic {
-              data_encoding::BASE64_NOPAD.decode(cleaned.as_bytes())
-            } else {
-              data_encoding::BASE64URL_NOPAD.decode(cleaned.as_bytes())
-            };
-            match sloppy_result {
-              Ok(decoded_bytes) => {
+            match control::decode_b64_sloppy(s, is_classic) {
+              Some(decoded_bytes) => {
                 if decoded_bytes != bytes {
                   let expected_encoding = if is_classic {
                     data_encoding::BASE64.encode(bytes)
@@ -455,7 +449,7 @@ impl<'a> JSONValidator<'a> {
                   ));
                 }
               }
-              Err(_) => {
+              None => {
                 self.add_error(format!("invalid base64 encoding: {}", e));
               }
             }
